@@ -246,3 +246,64 @@ __CPROVER_ensures(OLD(thread_context->_transit_event_buffer) == NULL ==> (g_buff
     harness='  BW* s; TCx* t; BW_update_cache_lambda(s, t);',
     dropped=['shared_ptr ownership of the buffer'], trusted=['for_each_thread_context visits every registered context under the registry lock (hand-off: units TCM.register / BW.update_cache)'], min_obligations=10)
 UNITS.append(update_cache_lambda)
+
+# ------------------------------------------------------------------------------------------ _cleanup_invalidated_thread_contexts: the whole reclaim loop
+CT_PRELUDE = r'''
+/* cache of active contexts with erase: one tracked context at g_p (until erased) and a representative of all the others.
+   flag = the answer of the reclaim predicate for that context (unit BW.cleanup_pred: thread exited AND queue empty AND buffer empty) */
+typedef struct TCe { bool flag; } TCe;
+typedef struct EVec { size_t n; size_t g_p; bool g_tracked_erased; TCe* tracked; TCe* other; size_t g_erases; } EVec;
+typedef struct BW { EVec _active_thread_contexts_cache; } BW;
+static inline size_t EVec_size(EVec* v) { return v->n; }
+static inline TCe* EVec_get(EVec* v, size_t i) { __CPROVER_assert(i < v->n, "cache index within size"); return (!v->g_tracked_erased && i == v->g_p) ? v->tracked : v->other; }
+static inline void EVec_erase(EVec* v, size_t i) { __CPROVER_assert(i < v->n, "erase within size"); if (!v->g_tracked_erased) { if (i == v->g_p) v->g_tracked_erased = true; else if (i < v->g_p) v->g_p--; } v->n--; v->g_erases++; }
+#define HAS_T(v) (!(v)->g_tracked_erased && (v)->g_p < (v)->n)
+#define HAS_O(v) ((v)->n > (HAS_T(v) ? 1u : 0u))
+#define NONE_LEFT(v) ((!HAS_T(v) || !(v)->tracked->flag) && (!HAS_O(v) || !(v)->other->flag))
+bool g_has_invalid, g_snap_none_left; size_t g_removed_tracked, g_removed_total, g_clock, g_t_remove_tracked, g_t_erase_tracked;
+bool TCM_has_invalid(BW* self) __CPROVER_assigns() __CPROVER_ensures(RET == g_has_invalid);
+/* std::find_if over the cache with the reclaim predicate: the first context the predicate accepts, or end() */
+size_t FIND_RECLAIMABLE(EVec* v) __CPROVER_assigns()
+__CPROVER_ensures(RET <= v->n && (RET == v->n ? NONE_LEFT(v) : ((HAS_T(v) && RET == v->g_p) ? v->tracked->flag : (HAS_O(v) && v->other->flag))));
+void TCM_remove(BW* self, TCe* tc)
+__CPROVER_requires(tc->flag) /*@ C03,C20 "only a context whose thread exited and whose queue and buffer are empty is handed to the manager for removal" */
+__CPROVER_assigns(g_removed_tracked, g_removed_total, g_clock, g_t_remove_tracked)
+__CPROVER_ensures(g_removed_total == OLD(g_removed_total) + 1 && g_clock == OLD(g_clock) + 1 && (tc == self->_active_thread_contexts_cache.tracked && !self->_active_thread_contexts_cache.g_tracked_erased ? (g_removed_tracked == OLD(g_removed_tracked) + 1 && g_t_remove_tracked == g_clock) : (g_removed_tracked == OLD(g_removed_tracked) && g_t_remove_tracked == OLD(g_t_remove_tracked))));
+#define C_(s) (&(s)->_active_thread_contexts_cache)
+'''
+FIND_RX = r'std::find_if\(_active_thread_contexts_cache\.begin\(\),\s*_active_thread_contexts_cache\.end\(\),\s*find_invalid_and_empty_thread_context_callback\)'
+cleanup_tc = dict(
+    name='BW.cleanup_tc', primary='C20', props={'C20', 'C03'}, kind='S',
+    desc='BackendWorker::_cleanup_invalidated_thread_contexts (the loop around the reclaim predicate): every context the predicate accepts is removed from the manager and from the backend cache - the same one, once - and the pass ends only when none is left; nothing is touched unless a thread has exited',
+    structs=[], prelude=CT_PRELUDE, enforce='BW__cleanup_invalidated_thread_contexts', replace=['TCM_has_invalid', 'FIND_RECLAIMABLE', 'TCM_remove'], loopcontracts=True,
+    funcs=[dict(src=dict(header=H, cls='BackendWorker', name='_cleanup_invalidated_thread_contexts'), src_params=[], cfun='BW__cleanup_invalidated_thread_contexts', sig='void BW__cleanup_invalidated_thread_contexts(BW* self)',
+                cls_c='BW', member_fields=['_active_thread_contexts_cache'],
+                pre_rules=[(r'auto\s+find_invalid_and_empty_thread_context_callback\s*=\s*\[\]\(ThreadContext\*\s*thread_context\).*?return\s+false;\s*\}\s*;', '', '!'),
+                           (r'!\s*_thread_context_manager\.has_invalid_thread_context\(\)', '!TCM_has_invalid(self)'),
+                           (r'auto\s+found_invalid_and_empty_thread_context\s*=\s*' + FIND_RX, 'size_t found_invalid_and_empty_thread_context = FIND_RECLAIMABLE(&_active_thread_contexts_cache)'),
+                           (r'found_invalid_and_empty_thread_context\s*=\s*' + FIND_RX, 'found_invalid_and_empty_thread_context = FIND_RECLAIMABLE(&_active_thread_contexts_cache)'),
+                           (r'found_invalid_and_empty_thread_context\s*!=\s*std::end\(_active_thread_contexts_cache\)', 'found_invalid_and_empty_thread_context != EVec_size(&_active_thread_contexts_cache)'),
+                           (r'_thread_context_manager\.remove_shared_invalidated_thread_context\(\*found_invalid_and_empty_thread_context\)\s*;', 'TCM_remove(self, EVec_get(&_active_thread_contexts_cache, found_invalid_and_empty_thread_context));'),
+                           (r'_active_thread_contexts_cache\.erase\(found_invalid_and_empty_thread_context\)\s*;', 'EVec_erase(&_active_thread_contexts_cache, found_invalid_and_empty_thread_context);')],
+                loops={r'while\s*\(': r'''
+__CPROVER_assigns(found_invalid_and_empty_thread_context, self->_active_thread_contexts_cache.n, self->_active_thread_contexts_cache.g_p, self->_active_thread_contexts_cache.g_tracked_erased, self->_active_thread_contexts_cache.g_erases, g_removed_tracked, g_removed_total, g_clock, g_t_remove_tracked)
+__CPROVER_loop_invariant(found_invalid_and_empty_thread_context <= C_(self)->n && C_(self)->n <= __CPROVER_loop_entry(C_(self)->n) && g_removed_total + C_(self)->n == __CPROVER_loop_entry(g_removed_total) + __CPROVER_loop_entry(C_(self)->n) && C_(self)->g_erases - __CPROVER_loop_entry(C_(self)->g_erases) == g_removed_total - __CPROVER_loop_entry(g_removed_total))
+__CPROVER_loop_invariant(found_invalid_and_empty_thread_context == C_(self)->n ? NONE_LEFT(C_(self)) : ((HAS_T(C_(self)) && found_invalid_and_empty_thread_context == C_(self)->g_p) ? C_(self)->tracked->flag : (HAS_O(C_(self)) && C_(self)->other->flag)))
+__CPROVER_loop_invariant(C_(self)->g_tracked_erased ? (C_(self)->tracked->flag && g_removed_tracked == 1) : (g_removed_tracked == 0 && C_(self)->g_p < C_(self)->n))
+__CPROVER_loop_invariant((C_(self)->n == __CPROVER_loop_entry(C_(self)->n)) ==> (C_(self)->g_p == __CPROVER_loop_entry(C_(self)->g_p) && !C_(self)->g_tracked_erased))
+__CPROVER_decreases(C_(self)->n)
+'''},
+                contract=r'''
+__CPROVER_requires(__CPROVER_is_fresh(self, sizeof(*self)) && __CPROVER_is_fresh(C_(self)->tracked, sizeof(TCe)) && __CPROVER_is_fresh(C_(self)->other, sizeof(TCe)))
+__CPROVER_requires(C_(self)->g_p < C_(self)->n && C_(self)->n <= 1000000 && !C_(self)->g_tracked_erased && g_removed_tracked == 0 && g_removed_total == 0 && C_(self)->g_erases == 0 && g_clock == 0 && (g_snap_none_left ==> NONE_LEFT(C_(self))) && (NONE_LEFT(C_(self)) ==> g_snap_none_left))
+__CPROVER_assigns(self->_active_thread_contexts_cache.n, self->_active_thread_contexts_cache.g_p, self->_active_thread_contexts_cache.g_tracked_erased, self->_active_thread_contexts_cache.g_erases, g_removed_tracked, g_removed_total, g_clock, g_t_remove_tracked)
+__CPROVER_ensures(C_(self)->g_tracked_erased ==> (C_(self)->tracked->flag && g_removed_tracked == 1)) /*@ C03,C20 "a context leaves the backend cache only if the reclaim predicate accepted it, and exactly then it is also removed from the manager (once): nothing pending is discarded, nothing stays registered" */
+__CPROVER_ensures(!C_(self)->g_tracked_erased ==> g_removed_tracked == 0) /*@ C03 "a context that stays in the cache is not released" */
+__CPROVER_ensures((g_has_invalid && !g_snap_none_left) ==> g_removed_total >= 1) /*@ C20 "once a thread has exited, a clean-up pass that finds a context whose thread exited and that is drained reclaims at least one (the source reclaims all of them in one pass; the property needs progress, repeated passes do the rest)" */
+__CPROVER_ensures(C_(self)->g_erases == g_removed_total && C_(self)->n + g_removed_total == OLD(C_(self)->n)) /*@ C20 "the cache shrinks by exactly the contexts released" */
+__CPROVER_ensures(!g_has_invalid ==> (g_removed_total == 0 && C_(self)->n == OLD(C_(self)->n))) /*@ C20 "nothing is touched unless a thread has exited" */
+''')],
+    harness='  BW* s; BW__cleanup_invalidated_thread_contexts(s);',
+    dropped=['the predicate lambda (unit BW.cleanup_pred): its answer per context is the ghost flag', 'assert (NDEBUG)', 'iterators as indices'],
+    trusted=['cache abstracted to {one tracked context, one representative of the others}; std::find_if returns the first accepted element or end()', 'remove_shared_invalidated_thread_context by unit TCM.remove'], min_obligations=30)
+UNITS.append(cleanup_tc)
